@@ -37,7 +37,43 @@ def check(ctx):
     if prep is not None:
         ctx.touch(prep)
         sws = [(sb, pl) for sb, pl, tg, ow in lib.discr_switches(prep) if "ReactorMode" in lib.place_type(prep, pl)]
-        if ctx.floor("C07.a", len(sws), 1, "match on ReactorMode"):
+        cmp_form = None
+        if not sws:
+            # `if *self == ReactorMode::Persistent { Persistent(..) } else { AutoDespawn(..) }`: the compared constant is read
+            # from the promoted constants
+            for b_, t_, fr_ in prep.iter_calls():
+                if fr_ and lib.tail(mir.fn_name(fr_), 1) in ("eq", "ne") and any("ReactorMode" in a for a in (fr_.get("args") or [])) and len(t_["args"]) >= 2:
+                    v_ = lib.const_variant(prep, t_["args"][1]) or lib.const_variant(prep, t_["args"][0])
+                    arms_ = lib.bool_arms(prep, b_)
+                    if v_ and arms_:
+                        eq_t, ne_t = (arms_[0][1], arms_[0][2]) if lib.tail(mir.fn_name(fr_), 1) == "eq" else (arms_[0][2], arms_[0][1])
+                        cmp_form = (v_, eq_t, ne_t, b_)
+        if cmp_form is not None and cmp_form[0] == "Persistent":
+            ctx.ok("C07.a", "floor:match on ReactorMode", prep.loc(cmp_form[3]), "mode compared with ReactorMode::Persistent")
+            ctx.ok("C07.a", "ReactorMode::prepare:match-exhaustive", prep.loc(cmp_form[3]), "two-way comparison: Persistent / every other mode")
+            for v, tb in (("Persistent", cmp_form[1]), ("Cleanup", cmp_form[2]), ("Revokable", cmp_form[2])):
+                region = prep.reach_from(tb)
+                aggs = [(b, st["rv"]["agg"]) for b, i, st in prep.iter_stmts(region) if st["k"] == "assign" and "agg" in st["rv"]
+                        and st["rv"]["agg"].get("adt", "").endswith("::ReactorHandle")]
+                want = "Persistent" if v == "Persistent" else "AutoDespawn"
+                ok = bool(aggs) and all(a["vname"] == want for b, a in aggs)
+                if ok and want == "AutoDespawn":
+                    for b, a in aggs:
+                        for o in origins(prep, a["ops"][0]):
+                            if o[0] != "call":
+                                ok = False
+                                continue
+                            t = prep.blocks[o[1]]["term"]
+                            fr = op_fn(t["func"])
+                            ok = ok and fr is not None and lib.tail(mir.fn_name(fr), 2) == "AutoDespawner::prepare" \
+                                and all(x[0] == "arg" and x[1] == 3 for x in origins(prep, t["args"][1]))
+                if ok and want == "Persistent":
+                    for b, a in aggs:
+                        ok = ok and lib.originates_from_arg(prep, a["ops"][0], 3)
+                ctx.check(ok, "C07.a", "ReactorMode::prepare[%s]:builds-%s" % (v, want), prep.loc(tb),
+                          "%s -> ReactorHandle::%s for the given system" % (v, want),
+                          "mode %s does not build ReactorHandle::%s for its own system entity" % (v, want))
+        elif ctx.floor("C07.a", len(sws), 1, "match on ReactorMode"):
             arms, ow, adt = lib.enum_arms(prep, prog, sws[0][0])
             ctx.check(prep.is_unreachable_block(ow), "C07.a", "ReactorMode::prepare:match-exhaustive", prep.loc(sws[0][0]), "", "catch-all arm reachable")
             for v, tb in sorted(arms.items()):
@@ -293,6 +329,11 @@ def check(ctx):
     nh = core.adopt(ctx, _c03, lambda o: o["rule"] in ("C03.e", "C03.b") and "DespawnAccessTracker" in o["key"], "C07.e")
     nh += core.adopt(ctx, _c11, lambda o: o["rule"] == "C11.prepared" and "DespawnAccessTracker" in o["key"], "C07.e")
     ctx.floor("C07.e", nh, 3, "shared pending-list obligations of the despawn tracker (C03.b/e, C11.prepared)")
+    # the handles an entity's EntityReactors holds are released one entry at a time by revocation: the component itself (with
+    # every other reactor's handles) is never taken off a live entity (shared with C16.c)
+    import c16 as _c16
+    n16_ = core.adopt(ctx, _c16, lambda o: o["rule"] == "C16.c" and "EntityReactors:never-removed-from-a-live-entity" in o["key"], "C07.g")
+    ctx.floor("C07.g", n16_, 1, "shared EntityReactors-not-removed obligation (C16.c)")
     n2 = core.adopt(ctx, _c02, lambda o: o["rule"] == "C02.a" and any(k in o["key"] for k in ("single-disposition", "dispositions=", "abort-only")), "C07.e")
     ctx.floor("C07.e", n2, 2, "shared disposition obligations of the runner (C02.a)")
 
